@@ -8,7 +8,7 @@ import UgoVerif.Proofs.C16Bridge
   the frame array is the empty one.
 -/
 namespace UgoVerif.Proofs.C16
-open UgoVerif UgoVerif.Go UgoVerif.Model UgoVerif.Compile UgoVerif.VM UgoVerif.Eval
+open UgoVerif UgoVerif.Go UgoVerif.Model UgoVerif.Compile UgoVerif.VM UgoVerif.VM.Cfi UgoVerif.Eval
 
 /-- every function cell names a code of the code memory -/
 def FnIdx (vm : State) : Prop :=
